@@ -191,7 +191,7 @@ def harness_run(binary, family, seed, tier, extra_args=None, timeout=3000):
 
 # ------------------------------------------------------------------ model evaluation in Coq
 
-def run_shards(pid, cases, workdir, preamble_extra="", with_rfc=False, kc_term="K_src"):
+def run_shards(pid, cases, workdir, preamble_extra="", with_rfc=False, kc_term="K_src", hf_term="sha256_n"):
     """cases: list of (id, json) that have a Coq rendering. returns (mismatch_ids, shown_text, errors)"""
     os.makedirs(workdir, exist_ok=True)
     for f in glob.glob(os.path.join(workdir, "cases_*")):
@@ -223,22 +223,23 @@ def run_shards(pid, cases, workdir, preamble_extra="", with_rfc=False, kc_term="
     def write_shard(k, items, show_ids=None):
         path = os.path.join(workdir, "cases_%d%s.v" % (k, "_show" if show_ids else ""))
         with open(path, "w") as fh:
-            fh.write("From HbsLms Require Import Base.Bytes Model.Consts Model.Lmots Gen.Generated Exec.Runner.\n")
+            fh.write("From HbsLms Require Import Base.Bytes Model.Consts Model.Lmots Gen.Generated Exec.Sha256 Exec.Toy Exec.Runner.\n")
             fh.write(preamble_extra)
             fh.write("Local Open Scope N_scope.\n")
             fh.write(ctxs[k].preamble())
             fh.write("Definition Kc : consts := %s.\n" % kc_term)
+            fh.write("Definition Hc : nat -> bytes -> bytes := %s.\n" % hf_term)
             fh.write("Definition cs : list (N * case) := [\n")
             fh.write(";\n".join("(%d, %s)" % (cid, term) for cid, term, _ in items))
             fh.write("\n].\n")
             if show_ids:
-                fh.write("Eval vm_compute in show_cases Kc [%s] cs.\n" % "; ".join(str(i) for i in show_ids))
+                fh.write("Eval vm_compute in show_cases Kc Hc [%s] cs.\n" % "; ".join(str(i) for i in show_ids))
             else:
                 fh.write('Goal True. idtac "@@RESULT". exact I. Qed.\n')
-                fh.write("Eval vm_compute in run_cases Kc cs.\n")
+                fh.write("Eval vm_compute in run_cases Kc Hc cs.\n")
                 if with_rfc:
                     fh.write('Goal True. idtac "@@RFC". exact I. Qed.\n')
-                    fh.write("Eval vm_compute in run_rfc Kc cs.\n")
+                    fh.write("Eval vm_compute in run_rfc Kc Hc cs.\n")
         return path
 
     def run_one(k):
@@ -424,10 +425,12 @@ def run_property(pid, tier, seed, replay=None):
         kc_of = {fam.get("config", "default"): fam.get("kc", "K_src") for fam in prop["families"]}
         groups = {}
         for cid, it in corr_cases:
-            groups.setdefault(it.get("_config", "default"), []).append((cid, it))
-        for cfg_name, group in sorted(groups.items()):
-            m_ids, sh, cerr, r_ids = run_shards(pid, group, os.path.join(CACHE, "cases", pid, cfg_name),
-                                                with_rfc=bool(prop.get("rfc")), kc_term=kc_of.get(cfg_name, "K_src"))
+            fam = "toy" if str(it.get("hash", "")).startswith("toy") else "sha"
+            groups.setdefault((it.get("_config", "default"), fam), []).append((cid, it))
+        for (cfg_name, fam), group in sorted(groups.items()):
+            m_ids, sh, cerr, r_ids = run_shards(pid, group, os.path.join(CACHE, "cases", pid, cfg_name + ("-toy" if fam == "toy" else "")),
+                                                with_rfc=bool(prop.get("rfc")), kc_term=kc_of.get(cfg_name, "K_src"),
+                                                hf_term="toy_n" if fam == "toy" else "sha256_n")
             mism_ids += m_ids
             shown += sh
             cerrors += cerr
